@@ -254,7 +254,7 @@ func (e *Engine) prepareRepoPackage(rel string, overlay map[string][]byte) error
 		post := strings.Join(parts, ", ")
 		c.SynParams = names
 		sf := getSyn(c.SrcFile)
-		for _, cl := range c.Requires {
+		for _, cl := range append(append([]*Clause{}, c.Requires...), c.Givens...) {
 			if err := e.genClause(sf, cl, pre); err != nil {
 				return err
 			}
@@ -424,7 +424,7 @@ func (e *Engine) prepareExtern(paths []string) (string, map[string]string, error
 			post := strings.Join(parts, ", ")
 			c.SynParams = names
 			sf := &synFile{}
-			for _, cl := range c.Requires {
+			for _, cl := range append(append([]*Clause{}, c.Requires...), c.Givens...) {
 				if err := e.genClause(sf, cl, pre); err != nil {
 					return "", nil, err
 				}
